@@ -558,10 +558,11 @@ def shard(sh):
                             "wire_head": hexs(out["received"][:160])})
             if k == 200:
                 fd0 = e2.nfds()
+                nh0 = len(harnesses)
         if fd0 is not None:
             fd1 = e2.nfds()
             run.count("fd_leak_checks")
-            if fd1 > fd0 + 8:
+            if fd1 > fd0 + 8 + 4 * max(0, len(harnesses) - nh0):        # (worker objects created later own a few descriptors each)
                 run.violation("descriptor-leak", "open descriptors grew from %d to %d over %d connections" % (
                     fd0, fd1, sh["n"] - 200), {"note": "aggregate over shard", "shard": sh})
     finally:
